@@ -1,6 +1,7 @@
 package main
 
 import (
+	"runtime"
 	"go.uber.org/zap"
 	"bytes"
 	"context"
@@ -94,6 +95,9 @@ func checkC18(c *Ctx) {
 		c.Add("traces_validated_against_impl", 1)
 	}})
 	c.Set("live_enabler_histories", int64(nlive))
+	for _, f := range replaySlogOverlap(c.Pick(10, 100)) {
+		c.Violation(f.Key, f.What, map[string]interface{}{"mode": "overlapping-records"})
+	}
 	gens := []map[string]string{{"Emit": "TRUE", "MaxAttrsDerive": "1"}, {"Emit": "TRUE", "MaxHandlers": "3"}}
 	if c.Thorough() {
 		gens = []map[string]string{{"Emit": "TRUE"}}
@@ -483,19 +487,112 @@ func replaySlogLive(b slBeh, variant int) (finds []Finding) {
 		}
 		h := hs[(i+variant)%len(hs)]
 		lvl := slogOf[conc(st.Lvl)]
-		if got := h.Enabled(context.Background(), lvl); got != st.Attach {
+		// whether a record is handled depends on the core's level alone - not on the state of the context it comes with
+		ctx := context.Background()
+		switch (i + variant) % 3 {
+		case 1:
+			c2, cancel := context.WithCancel(ctx)
+			cancel()
+			ctx = c2
+		case 2:
+			c2, cancel := context.WithDeadline(ctx, time.Unix(1, 0))
+			defer cancel()
+			ctx = c2
+		}
+		if got := h.Enabled(ctx, lvl); got != st.Attach {
 			add("C18/enabled-differs", "step %d: Enabled(%v) = %v, the core's enabler says %v at that moment", i, lvl, got, st.Attach)
 		}
 		sink.writes = nil
 		if (i+variant)%2 == 0 {
 			r := slog.NewRecord(time.Time{}, lvl, "m", 0)
 			r.AddAttrs(slog.Int("k", 1))
-			h.Handle(context.Background(), r)
+			h.Handle(ctx, r)
 		} else {
-			slog.New(h).Log(context.Background(), lvl, "m", "k", 1)
+			slog.New(h).Log(ctx, lvl, "m", "k", 1)
 		}
 		if (len(sink.writes) == 1) != st.Attach {
 			add("C18/handled-differs", "step %d: record at %v: %d entries written, the core's enabler says enabled=%v at that moment", i, lvl, len(sink.writes), st.Attach)
+		}
+	}
+	return finds
+}
+
+
+// ---- a record being encoded while another record is handled completely ----
+
+type shGateValuer struct {
+	entered, release chan struct{}
+	v                string
+}
+
+func (g *shGateValuer) LogValue() slog.Value {
+	if g.entered != nil {
+		close(g.entered)
+		<-g.release
+	}
+	return slog.StringValue(g.v)
+}
+
+// replaySlogOverlap: record A is inside its own encoding (a LogValuer nested in a group resolves late) when record B
+// goes through the handler completely on the same P. Each line carries its own attributes only.
+func replaySlogOverlap(rounds int) (finds []Finding) {
+	add := func(key, f string, a ...interface{}) {
+		if len(finds) < 3 {
+			finds = append(finds, Finding{Key: key, What: fmt.Sprintf(f, a...)})
+		}
+	}
+	prev := runtime.GOMAXPROCS(1)
+	defer runtime.GOMAXPROCS(prev)
+	for r := 0; r < rounds && len(finds) == 0; r++ {
+		sink := &lockedLines{}
+		core := zapcore.NewCore(zapcore.NewJSONEncoder(zapcore.EncoderConfig{MessageKey: "m", SkipLineEnding: true}), sink, zapcore.DebugLevel)
+		var h slog.Handler = zapslog.NewHandler(core)
+		if r%2 == 1 {
+			h = h.WithGroup("req").WithAttrs([]slog.Attr{slog.Int("base", 1)})
+		}
+		gv := &shGateValuer{entered: make(chan struct{}), release: make(chan struct{}), v: "A-late"}
+		done := make(chan interface{}, 1)
+		go func() {
+			defer func() { done <- recover() }()
+			slog.New(h).Info("A", "user", "alice", "token", "A-secret", slog.Group("g", slog.Any("late", gv)), "tail", 1)
+		}()
+		select {
+		case <-gv.entered:
+		case <-time.After(2 * time.Second):
+			// the valuer was resolved before encoding: nothing to overlap with (not a verdict)
+			close(gv.release)
+			<-done
+			continue
+		}
+		var pb interface{}
+		func() {
+			defer func() { pb = recover() }()
+			slog.New(h).Info("B", "user", "bob", "token", "B-secret", "n", 2)
+			slog.New(h).Warn("B2", "other", true)
+		}()
+		close(gv.release)
+		pa := <-done
+		if pa != nil || pb != nil {
+			add("C18/panic", "a record handled while another record was being encoded: panic %v / %v", pa, pb)
+			continue
+		}
+		for _, l := range sink.all() {
+			var m map[string]interface{}
+			if err := json.Unmarshal([]byte(l), &m); err != nil {
+				add("C18/tree-differs:invalid-json", "overlapping records: %v: %s", err, l)
+				continue
+			}
+			flat := l
+			switch m["m"] {
+			case "A":
+				if strings.Contains(flat, "bob") || strings.Contains(flat, "B-secret") || !strings.Contains(flat, "alice") || !strings.Contains(flat, "A-secret") || !strings.Contains(flat, "A-late") || !strings.Contains(flat, `"tail":1`) {
+					add("C18/tree-differs", "record A (user alice) was being encoded while record B (user bob) was handled; A came out as %s", l)
+				}
+			case "B":
+				if strings.Contains(flat, "alice") || strings.Contains(flat, "A-secret") || !strings.Contains(flat, "bob") || !strings.Contains(flat, `"n":2`) {
+					add("C18/tree-differs", "record B (user bob) was handled while record A (user alice) was being encoded; B came out as %s", l)
+				}
+			}
 		}
 	}
 	return finds
